@@ -388,6 +388,8 @@ class LabReplay:
         # (b) verdict, (c) refusal is a ValueError
         cls = ev.get("cls")
         overlapping = ev.get("overlap") in ("overlap", "identical", "self")
+        if self.near_not_asserted(ev):
+            return
         if ev["res"] != "ok":
             if cls == "shape_mismatch":
                 return          # owned by C07 (any exception is a rejection)
@@ -729,11 +731,16 @@ class LabReplay:
         if not (present <= got <= keys):
             self.report("C10", "get_substances", key, f"{out.call}: {n}.get_substances() = {sorted(map(str, got))}, contents hold {sorted(present)}", ev, ctx["pre_key"])
 
+    def near_not_asserted(self, ev):
+        """targets 5 ppm from the current concentration are judged only where the library's rounding of a stated
+        concentration (1e-10 in base units) is far below that distance"""
+        return ev["op"] == "dilute" and ev.get("near") and abs(float(self.inst.conc_base(rat(ev["t"]), ev["nu"], ev["du"]))) < 1e-2
+
     def mon_c11(self, ctx):
         """fill_to / dilute reach their target by adding only solvent; the two refusal classes of C11."""
         ev, out, objs, inst = ctx["ev"], ctx["out"], ctx["objs"], self.inst
         op = ev["op"]
-        if op not in ("fill_to", "dilute"):
+        if op not in ("fill_to", "dilute") or self.near_not_asserted(ev):
             return
         self.ran("C11")
         key = self.key_of(ev, ctx["spec_pre"])
